@@ -82,17 +82,7 @@ Proof.
   unfold set_index_check. intro H.
   destruct args as [|i [|l [|v [|]]]]; try discriminate.
   all: destruct l; try discriminate; destruct i; try discriminate; try (inversion H; reflexivity);
-    match type of H with context [if ?b then _ else _] => destruct b end; discriminate.
-Qed.
-
-(* the repaired VM only turns some executions into returned errors *)
-Lemma exec_fixed_refines p s o arg next :
-  exec_fixed p s o arg next = exec p s o arg next \/ exists e, exec_fixed p s o arg next = Failed e.
-Proof.
-  unfold exec_fixed. destruct o; auto.
-  - destruct (List.length (ostack s) <? 3)%nat; auto.
-    destruct (set_index_check_fixed _) as [[v|e|c]|]; eauto.
-  - destruct (zero_step (ostack s)); eauto.
+    match type of H with context [normalize_index ?f ?n ?b] => destruct (normalize_index f n b) end; discriminate.
 Qed.
 
 (* ---------- the invariant ---------- *)
@@ -222,6 +212,7 @@ Section Safe.
       + (* StepRange *)
         destruct (lc + 3 <=? k) eqn:EK; [|discriminate]. inversion Hx; subst succs; clear Hx. simpl.
         destruct (List.length (ostack s) <? 3)%nat eqn:EU; [apply Nat.ltb_lt in EU; lia|].
+        destruct (zero_step (ostack s)); [exact I|].
         destruct (step_range arg (ostack s)) as [stk|] eqn:ER; [|reflexivity].
         unfold step_range in ER.
         destruct (ostack s) as [|[] [|[] [|[] rest]]]; try discriminate. inversion ER; subst stk; clear ER.
